@@ -246,6 +246,7 @@ def c15(ctx):
     run_script(ctx, rows, "system-messages-in-every-state")
     long_run_battery(ctx, ["cc14", "pn", "poll"])
     far_time_battery(ctx)
+    measured_clock_run(ctx)
     canary(ctx, trace, lambda rows_, rng: _corrupt_twin(rows_, rng, "C15"))
     vacuity(ctx, ["twin.C15", "feed.system", "feed.cc14.report", "feed.pn.report", "feed.poll.report", "poll.report"])
     ctx.rule = ("design: two-channel product of each machine to a fixpoint (other channel unchanged, reports carry "
@@ -364,6 +365,7 @@ def c18(ctx):
     long_run_battery(ctx, ["cc14", "pn", "poll"])
     far_time_battery(ctx)
     real_clock_run(ctx)
+    measured_clock_run(ctx)
     nostd_run(ctx, "cc14", ctx.q(10000, 100000))
     nostd_run(ctx, "pn", ctx.q(10000, 100000))
     if bad and not ctx.viol:
